@@ -373,7 +373,35 @@ class Gen:
         nodes, info = self.par(["list"], depth, env)
         return ["cut", nodes[0], ["lit", self.integer(0, 2)], ["lit", self.integer(0, 3)]], info
 
+    def g_while_queue(self, want, depth, env):
+        """a loop driven by a container that the body empties: the test's value is the container itself (through and/or),
+        after a statement, so a compiler that keeps the test's value in a temporary must re-evaluate it every pass"""
+        q = self.fresh("q")
+        n = self.integer(1, 3)
+        lenv = env.child(in_loop=True)
+        lenv.vars[q] = "list"
+        lenv.no_write = set(lenv.no_write) | {q}
+        lenv.no_read = set(lenv.no_read) | {q}
+        info = Info()
+        info.writes.add(q)
+        info.eff = True
+        info.stmt = True
+        e1 = next(self.ids)
+        shape = self.integer(0, 2)
+        if shape == 0:
+            test = ["do", [["eff", e1, 0], ["or", [["var", q], ["lit", None]]]]]
+        elif shape == 1:
+            test = ["do", [["eff", e1, 0], ["and", [["lit", 1], ["var", q]]]]]
+        else:
+            test = ["or", [["do", [["eff", e1, 0], ["var", q]]], ["lit", 0]]]
+        forms, bi, _ = self.body("any", depth, lenv.child(no_exits=True), 0, 1)
+        info.merge(bi)
+        init = ["setv", [[q, ["list", [["lit", 10 + i] for i in range(n)]]]]]
+        return ["do", [init, ["while", test, [["pop", q]] + forms, None]]], info
+
     def g_while(self, want, depth, env):
+        if self.integer(0, 3) == 0:
+            return self.g_while_queue(want, depth, env)
         w = self.fresh("w")
         k = self.integer(0, 3)
         lenv = env.child(in_loop=True)
